@@ -49,7 +49,7 @@ def run_c14(ctx):
     for si in range(ctx.scale(5, 20)):
         lines = chain.patch(horizon=-1)
         n_keys = rng.randrange(1, 7)
-        keys = chain.Keys(rng, n_keys + 2)          # the last two keys are not the wallet's
+        keys = chain.Keys(rng, n_keys + 3)          # two keys that are not the wallet's, and one that joins the wallet later
         tree = chain.Tree(rng, keys, genesis=chain.custom_genesis(keys, target=bytes([0x3f]) + b"\xff" * 31))
         # spread outputs over the wallet's keys: many small payments in a few blocks
         for _ in range(rng.randrange(3, 7)):
@@ -106,6 +106,23 @@ def run_c14(ctx):
                 impl.append("ok")
                 res.count("ledger_moved_between_spends")
             forced_mode = None
+            if step == 10:
+                # the wallet gets another key after it has been spending for a while; a block pays that key; the next spend takes
+                # everything that is left — the new key's output included
+                pk_l, sk_l = keys.pks[n_keys + 2], keys.sks[n_keys + 2].to_string()
+                w.keypairs[pk_l] = sk_l
+                w.unused_public_keys.append(pk_l)
+                ops.append("w addkey %s %s" % (pk_l.hex(), sk_l.hex()))
+                impl.append("ok")
+                nb = tree.extend(head, txs=[], miner=n_keys + 2)
+                cs = tree.cs
+                head = cs.current_chain_hash
+                utxo = tree.utxo(head)
+                owned = {r: o for r, o in utxo.items() if o.public_key.public_key in w.keypairs}
+                ops.append("addnv t t " + hx(nb.serialize()))
+                impl.append("ok")
+                forced_mode = "exact"
+                res.count("key_added_to_the_wallet_between_spends")
             if step in (6, 14):
                 forced_mode = "half"            # (a spend that reaches well into the wallet's later keys, left unconfirmed)
             if step in (7, 15) and ever_used:
